@@ -68,7 +68,12 @@ Record ent := mkEnt { eid : N; edes : des; ekind : kind; edeclby : option N }.
 Inductive usage :=
 | UVal (t : ty)             (* the name alone where a value of type t is expected *)
 | UCall (a : arg) (t : ty)  (* name(actual) / unary-operator operand, result of type t expected *)
-| UType.                    (* the name as a type mark *)
+| UType                     (* the name as a type mark *)
+| UCallX (x : xarg) (t : ty) (* name(actual) where the actual is itself a use site: an (overloaded)
+                               name or a nested call; result of type t expected *)
+with xarg :=
+| XName (s : N) (d : des)            (* site s: the name d alone *)
+| XCall (s : N) (d : des) (a : arg). (* site s: the call d(a) *)
 
 Record site := mkSite { sid : N; sdes : des; suse : usage }.
 
@@ -224,6 +229,49 @@ Definition resolve (r : dres) (u : usage) : answer :=
   | DOver es => match filter (cand_fits u) es with [e] => ADecl (eid e) | _ => AError end
   end.
 
+(* A call whose actual is itself overloaded: the complete context is resolved as a whole.  An
+   interpretation is a pair (f, e): f a visible function of the call name with result type t, e a
+   visible meaning of the actual whose type is the parameter type of f.  Exactly one interpretation:
+   both sites resolve; otherwise the line is in error (whatever the reason: nothing visible, no
+   interpretation, several). *)
+Definition typed_meanings (x : xarg) (ri : dres) : list (ent * ty) :=
+  match x with
+  | XName _ _ =>
+      match ri with
+      | DSingle e => match ekind e with KObj t => [(e, t)] | _ => [] end
+      | DOver es => flat_map (fun e => match ekind e with KLit t => [(e, t)] | _ => [] end) es
+      | _ => []
+      end
+  | XCall _ _ a =>
+      match ri with
+      | DOver es => flat_map (fun e => match ekind e with
+                                       | KFunc p r => if arg_fits a p then [(e, r)] else []
+                                       | _ => []
+                                       end) es
+      | _ => []
+      end
+  end.
+Definition interpretations (ro ri : dres) (x : xarg) (t : ty) : list (ent * ent) :=
+  match ro with
+  | DOver fs =>
+      flat_map (fun f => match ekind f with
+                         | KFunc p r =>
+                             if ty_eqb r t
+                             then flat_map (fun m => if ty_eqb (snd m) p then [(f, fst m)] else [])
+                                           (typed_meanings x ri)
+                             else []
+                         | _ => []
+                         end) fs
+  | _ => []
+  end.
+Definition resolve_x (ro ri : dres) (x : xarg) (t : ty) : answer * answer :=
+  match interpretations ro ri x t with
+  | [(f, e)] => (ADecl (eid f), ADecl (eid e))
+  | _ => (match ro with DConflict => AConflict | DUndeclared => AUndeclared | _ => AError end, AError)
+  end.
+Definition xarg_sid (x : xarg) : N := match x with XName s _ => s | XCall s _ _ => s end.
+Definition xarg_des (x : xarg) : des := match x with XName _ d => d | XCall _ d _ => d end.
+
 (* ------------------------------------------------------------------------------------------ *)
 (* Program points of a whole program: the reference resolver over all use sites                *)
 (* ------------------------------------------------------------------------------------------ *)
@@ -245,16 +293,23 @@ Definition push_top (it : item) (ch : list (list item)) : list (list item) :=
   | pre :: rest => (pre ++ [it]) :: rest
   end.
 
-(* one item at a point with chain ch; returns the new chain and the answer if the item is a site *)
-Definition spec_item (t : utable) (ch : list (list item)) (it : item)
-  : list (list item) * option (N * answer) :=
+(* one item at a point with chain ch; returns the new chain and the answers if the item is a site *)
+Definition spec_item (tb : utable) (ch : list (list item)) (it : item)
+  : list (list item) * list (N * answer) :=
   match it with
-  | IDecl _ | IUseAll _ | IUseName _ _ => (push_top it ch, None)
-  | ISite s => (ch, Some (sid s, resolve (denotes (tab_pkgs t) ch (sdes s)) (suse s)))
-  | IOpen => ([] :: ch, None)
+  | IDecl _ | IUseAll _ | IUseName _ _ => (push_top it ch, [])
+  | ISite s =>
+      (ch, match suse s with
+           | UCallX x t =>
+               let '(ao, ai) := resolve_x (denotes (tab_pkgs tb) ch (sdes s))
+                                          (denotes (tab_pkgs tb) ch (xarg_des x)) x t in
+               [(sid s, ao); (xarg_sid x, ai)]
+           | u => [(sid s, resolve (denotes (tab_pkgs tb) ch (sdes s)) u)]
+           end)
+  | IOpen => ([] :: ch, [])
   | IOpenFun f p =>
-      ([IDecl p] :: match edeclby f with None => push_top (IDecl f) ch | Some _ => ch end, None)
-  | IClose => (match ch with _ :: (_ :: _ :: _) as rest => rest | _ => ch end, None)
+      ([IDecl p] :: match edeclby f with None => push_top (IDecl f) ch | Some _ => ch end, [])
+  | IClose => (match ch with _ :: (_ :: _ :: _) as rest => rest | _ => ch end, [])
   end.
 
 Fixpoint spec_items (t : utable) (ch : list (list item)) (its : list item)
@@ -264,7 +319,7 @@ Fixpoint spec_items (t : utable) (ch : list (list item)) (its : list item)
   | it :: r =>
       let '(ch1, o) := spec_item t ch it in
       let '(ch2, out) := spec_items t ch1 r in
-      (ch2, match o with Some a => a :: out | None => out end)
+      (ch2, o ++ out)
   end.
 
 Definition unit_chain (t : utable) (u : unit) : list (list item) :=
@@ -336,7 +391,11 @@ Fixpoint family_items (t : utable) (ch : list (list item)) (its : list item) : b
         match it with
         | IDecl _ => top_ok ch1
         | IOpenFun _ _ => top_ok ch1 && match ch1 with _ :: up => top_ok up | [] => false end
-        | ISite s => no_equal_profiles (tab_pkgs t) ch (sdes s)
+        | ISite s => no_equal_profiles (tab_pkgs t) ch (sdes s) &&
+                     match suse s with
+                     | UCallX x _ => no_equal_profiles (tab_pkgs t) ch (xarg_des x)
+                     | _ => true
+                     end
         | _ => true
         end in
       here && family_items t ch1 r
@@ -386,7 +445,11 @@ Fixpoint stats_items (t : utable) (ch : list (list item)) (its : list item) : li
   | it :: r =>
       let rest := stats_items t (fst (spec_item t ch it)) r in
       match it with
-      | ISite s => (sid s, site_stats (tab_pkgs t) ch (sdes s)) :: rest
+      | ISite s => (sid s, site_stats (tab_pkgs t) ch (sdes s)) ::
+                   match suse s with
+                   | UCallX x _ => (xarg_sid x, site_stats (tab_pkgs t) ch (xarg_des x)) :: rest
+                   | _ => rest
+                   end
       | _ => rest
       end
   end.
